@@ -521,6 +521,8 @@ pub fn run_check(meta: &CheckMeta, tier: Tier) -> i32 {
             "exhaustive": false,
             "simulated_runs": runs,
             "runs_per_hour": if wall > 0.0 { (runs as f64 / wall * 3600.0) as u64 } else { 0 },
+            "seeds_per_hour": if wall > 0.0 { (runs as f64 / wall * 3600.0) as u64 } else { 0 },
+            "seed_derivation": "every simulated run i has its own seed mix(VERIF_SEED, property, i); all choices of the run (program, source, globals, hash keys, layout, heap, schedule, fault plan) are drawn from sub-streams of that seed",
             "executions_per_hour": if wall > 0.0 { (m.evaluations as f64 / wall * 3600.0) as u64 } else { 0 },
             "simulated_steps": m.steps,
             "simulated_time": "none: the system has no clock or timer; progress is measured in simulated steps (polls, ticks, scheduler grants, intercepted system calls)",
